@@ -248,6 +248,8 @@ pub struct ScriptStrategy<State> {
     /// a "flatten everything" close strategy: `close_positions_requests` also cancels every tracked order of the
     /// filtered instruments (the default close strategy emits market orders only)
     pub close_also_cancels: Arc<std::sync::atomic::AtomicBool>,
+    /// the on-disconnect hook also DISABLES trading (one of the uses the trait documents for it)
+    pub disable_trading_on_disconnect: Arc<std::sync::atomic::AtomicBool>,
     phantom: std::marker::PhantomData<fn() -> State>,
 }
 
@@ -261,6 +263,7 @@ impl<State> Clone for ScriptStrategy<State> {
             disabled_calls: self.disabled_calls.clone(),
             close_cid_counter: self.close_cid_counter.clone(),
             close_also_cancels: self.close_also_cancels.clone(),
+            disable_trading_on_disconnect: self.disable_trading_on_disconnect.clone(),
             phantom: std::marker::PhantomData,
         }
     }
@@ -276,6 +279,7 @@ impl<State> Default for ScriptStrategy<State> {
             disabled_calls: Default::default(),
             close_cid_counter: Default::default(),
             close_also_cancels: Default::default(),
+            disable_trading_on_disconnect: Default::default(),
             phantom: std::marker::PhantomData,
         }
     }
@@ -351,16 +355,19 @@ pub struct DisconnectSeen(pub ExchangeId);
 #[derive(Debug, Clone, PartialEq, Eq)]
 pub struct DisabledSeen;
 
-impl<Clock, State, ExecutionTxs, Risk> OnDisconnectStrategy<Clock, State, ExecutionTxs, Risk>
-    for ScriptStrategy<State>
+impl<Clock, GlobalData, InstrumentData, ExecutionTxs, Risk> OnDisconnectStrategy<Clock, EngineState<GlobalData, InstrumentData>, ExecutionTxs, Risk>
+    for ScriptStrategy<EngineState<GlobalData, InstrumentData>>
 {
     type OnDisconnect = DisconnectSeen;
 
     fn on_disconnect(
-        engine: &mut Engine<Clock, State, ExecutionTxs, Self, Risk>,
+        engine: &mut Engine<Clock, EngineState<GlobalData, InstrumentData>, ExecutionTxs, Self, Risk>,
         exchange: ExchangeId,
     ) -> Self::OnDisconnect {
         engine.strategy.disconnects.lock().unwrap().push(exchange);
+        if engine.strategy.disable_trading_on_disconnect.load(Ordering::Relaxed) {
+            engine.state.trading = TradingState::Disabled;
+        }
         DisconnectSeen(exchange)
     }
 }
